@@ -79,3 +79,18 @@ Lemma C18_inst_published_enforced :
                        && Nat.leb (rank_ord sev) (rank_ord (bl_level r))) all_rules end) published = true.
 Proof. vm_compute. reflexivity. Qed.
 Print Assumptions C18_inst_published_enforced.
+
+(* the documentation links bandit produces are the ones the DocUrl model computes from the registry: plugin links
+   from the ID and the function's name, blacklist links from the ID and the rule's name (two anchor groups shared) *)
+From Bandit Require Import Manager.DocUrl.
+Lemma C18_inst_doc_url_model :
+  forallb (fun r => match assoc (r_id r) doc_urls with
+                    | Some u => pstr_eqb u (doc_url_plugin doc_base (r_id r) (r_func r))
+                    | None => false
+                    end) registry
+  && forallb (fun r => match assoc (fst r) doc_urls with
+                       | Some u => pstr_eqb u (doc_url_blacklist doc_base (fst r) (snd r))
+                       | None => false
+                       end) bl_rows = true.
+Proof. vm_compute. reflexivity. Qed.
+Print Assumptions C18_inst_doc_url_model.
